@@ -82,6 +82,8 @@ def add(src, sid, props):
         return False
     d = os.path.join(SEEDED, sid)
     os.makedirs(d, exist_ok=True)
+    if os.path.realpath(src) == os.path.realpath(d):
+        return True  # re-verification of a stored mutant: nothing to copy
     shutil.copy(os.path.join(src, "patch.diff"), os.path.join(d, "patch.diff"))
     shutil.copy(demo, os.path.join(d, "demo_test.go"))
     meta2 = {
@@ -156,3 +158,19 @@ if __name__ == "__main__":
         sys.exit(0 if ok else 1)
     elif sys.argv[1] == "detect":
         detect(sys.argv[2:])
+    elif sys.argv[1] == "reverify":
+        # re-run the demonstration of stored mutants against the current /repo HEAD (fix: commits may have
+        # masked or conflicted with a patch); prints KEEP/REJECT per id, changes nothing
+        ids = sys.argv[2:] or sorted(x for x in os.listdir(SEEDED) if os.path.isdir(os.path.join(SEEDED, x)))
+        bad = []
+        for sid in ids:
+            d = os.path.join(SEEDED, sid)
+            meta = json.load(open(os.path.join(d, "meta.json")))
+            try:
+                ok = add(d, sid, meta.get("checked_against", [meta.get("property")]))
+            except SystemExit as e:
+                print(sid, "ERROR", e)
+                ok = False
+            if not ok:
+                bad.append(sid)
+        print("not reproducible at HEAD:", bad)
